@@ -85,7 +85,7 @@ def run(tier, seed):
         names += ['contract_put_' + c, 'contract_parse_' + c]
     text += CALLERS
     names += ['caller_decode_uses_parse_contract', 'caller_encode_uses_put_contract']
-    out = kani_engine.run_kani(text, names, tag='l0contract', timeout=14000, cfgs=('rtcm_rs_verif_contracts',), jobs=5)    # CBMC's contract instrumentation needs several GB per harness
+    out = kani_engine.run_kani(text, names, tag='l0contract', timeout=14000, cfgs=('rtcm_rs_verif_contracts',), jobs=3)    # CBMC's contract instrumentation needs several GB per harness
     ur.cmds.append(out['cmd'])
     ur.wall_s = out['wall_s']
     for h in names:
